@@ -19,6 +19,22 @@ CHECKS = {
             "Exhaustive for short streams, sampled above; that is as much as executions can give for an unbounded input space.",
             "Trusted: the probe layers and the list comparison. Frames are non-empty. Single-threaded delivery (one network thread).",
             "DESIGN.md 4/C05"),
+    "C15": ("exploration",
+            "runtime monitor: differential oracle (independent HKDF/AES-CBC/HMAC implementation anchored on a real-world vector) over exhaustive short lengths; exhaustive single-byte tamper/truncation fault enumeration",
+            "Every plaintext length 0..64 (thorough 0..160) x 4 kinds x 8-24 random keys, plus random lengths to 1 MiB, is "
+            "encrypted and decrypted by the real MediaCipher (generic and per-kind wrappers) and compared with an independent "
+            "implementation of the WhatsApp layout; for every length 0..64 every byte position of ciphertext+tag is flipped "
+            "(3 patterns quick, all 255 for <=32 B thorough), every truncation, wrong key and the 3 wrong kinds must raise.",
+            "Trusted: cryptography's AES-CBC, hashlib HMAC, the frozen real-world vector that anchors the reference. Random keys sampled.",
+            "DESIGN.md 4/C15"),
+    "C20": ("exploration",
+            "runtime monitor: independent oracles (hmac, urllib.parse.unquote_to_bytes, X25519+AES-GCM from cryptography) on generated inputs and on real request objects in preview mode",
+            "Tokens for digit strings of every length 1..20 and generated unicode phone strings are compared with an independent "
+            "HMAC-SHA1; every single byte / Latin-1 char / a spread of code points and generated str/bytes/int values must "
+            "percent-decode to the original; generated parameter lists and the three real request classes (preview mode, "
+            "sendRequest intercepted, harness recipient key) must decrypt to the encoded parameters in order under distinct ephemeral keys.",
+            "Trusted: frozen copies of the three token constants, hmac/urllib/cryptography. Input space sampled.",
+            "DESIGN.md 4/C20"),
 }
 
 NOT_BUILT = "check not built yet in this session (planned, see DESIGN.md section 4)"
